@@ -41,8 +41,13 @@ def _coord_x(w, ox, sx, j):
     return ox + (j - Fraction(w - 1, 2)) * sx
 
 
-def _close(a, b):
+def _close(a, b, mag=None):
+    """coordinates agree within 1e-9 relative.  `mag` (round 5): the magnitude of the world's coordinates
+    (max |origin|, pixel scale x frame side) for cases whose whole world is scaled by 2^k — the tolerance is then
+    1e-9 * mag (absolute), so that a world of size 1e-13 is not compared with a tolerance of 1e-9"""
     a, b = Fraction(a), Fraction(b)
+    if mag is not None:
+        return abs(a - b) <= TOL * mag
     return abs(a - b) <= TOL * max(1, abs(a), abs(b))
 
 
@@ -356,16 +361,26 @@ def _hist_walk(case):
         worlds.append({"h": mj["h"], "w": mj["w"], "bits": [c == "1" for c in mj["bits"]],
                        "scales": list(W["scales"]), "origin": list(W["origin"]), "native": list(W["native"]),
                        "noise": list(W["noise"]) if W.get("noise") else None,
-                       "store_native": bool(W.get("store_native", False))})
+                       "store_native": bool(W.get("store_native", False)),
+                       "arr_built": False, "arr_native": bool(W.get("store_native", False))})
     if case.get("share_mask"):
         a, b = worlds[0], worlds[1]
         if (a["h"], a["w"], a["bits"], a["scales"], a["origin"]) != (b["h"], b["w"], b["bits"], b["scales"], b["origin"]):
             raise HistInvalid("shared mask needs equal masks")
         b["bits"] = a["bits"]
     var = case.get("variant") or {}
+    # round 5 (R5-D): configuration histories.  `cfg` = general.structures.native_binned_only in force; an
+    # Array2D is natively stored when it was asked to be or when it was BUILT while the value was True.
+    has_cfg = any(o["op"] == "config" for o in case["ops"])
+    cfg = False
 
     def mj_of(st):
         return {"h": st["h"], "w": st["w"], "bits": "".join("1" if b else "0" for b in st["bits"])}
+
+    def touch(st):   # the world's Array2D is (lazily) built now
+        if not st["arr_built"]:
+            st["arr_built"] = True
+            st["arr_native"] = st["store_native"] or cfg
 
     for op in case["ops"]:
         wi = op.get("w", 0)
@@ -374,7 +389,13 @@ def _hist_walk(case):
         st = worlds[wi]
         h, w = st["h"], st["w"]
         k = op["op"]
+        if has_cfg and k in ("decoy", "derive", "fault", "edit_data"):
+            raise HistInvalid("not combined with configuration flips")
         geom = {"scales": list(st["scales"]), "origin": list(st["origin"]), "variant": var}
+        if has_cfg:
+            geom["cfg_native"] = cfg
+        if k in ("zoom", "resize", "pad", "trim", "edit_values"):
+            touch(st)
         sub = None
         if k == "zoom":
             if all(st["bits"]):
@@ -391,7 +412,7 @@ def _hist_walk(case):
                     raise HistInvalid("trim larger than the array")
                 step.update(kernel=list(op["kernel"]))
             sub = {"kind": "array_chain", "mask": mj_of(st), **geom, "native": list(st["native"]),
-                   "store_native": st["store_native"], "steps": [step], "roundtrip": False}
+                   "store_native": bool(st["arr_native"] or cfg), "steps": [step], "roundtrip": False}
         elif k == "mask_resize":
             sub = {"kind": "mask_chain", "mask": mj_of(st), **geom, "roundtrip": False,
                    "steps": [{"k": "resize", "shape": list(op["shape"]), "mask_pad": op.get("mask_pad", 0)}]}
@@ -405,7 +426,14 @@ def _hist_walk(case):
                    "pad": op.get("pad", "0"), "origin": None, "variant": var}
         yield op, wi, st, sub
         # ---- bookkeeping of the steps that change a world
+        if k == "config":
+            cfg = bool(op["value"])
+        elif k == "rebuild":
+            st["arr_built"] = False
         if k == "edit_mask":
+            for st2 in worlds:
+                if st2["bits"] is st["bits"]:
+                    st2["arr_built"] = False
             if "rect" in op:
                 y0, y1, x0, x1 = op["rect"]
                 cells = [(y, x) for y in range(y0, y1) for x in range(x0, x1)]
@@ -422,6 +450,8 @@ def _hist_walk(case):
                 if k == "edit_values" and st["bits"][y * w + x]:
                     raise HistInvalid("in-place write under the mask")
                 st["native"][y * w + x] = v
+            if k == "edit_data":
+                st["arr_built"] = False
         elif k == "derive" and op.get("what", "mask") == "mask" and case.get("share_mask"):
             raise HistInvalid("derive with a shared mask")
 
@@ -508,6 +538,13 @@ class C14(PropertyCheck):
     def generate(self, tier, rng):
         if tier != "quick" and not self.size_hints:
             yield from self._conventional_large(rng)
+        elif tier == "quick":
+            yield from self._always_large(rng)
+        # round-5/6 hardening (small streams first: they also lead the failing-input search)
+        yield from self._decade_cases(tier, rng)
+        yield from self._option_cases(tier, rng)
+        yield from self._own_cases(tier, rng)
+        yield from self._cfg_cases(tier, rng)
         for case in self._generate_base(tier, rng):
             yield self._harden(rng, case)
         # round-4 hardening: reuse histories on real objects (part of every run)
@@ -522,7 +559,19 @@ class C14(PropertyCheck):
              "mask_in": rng.choice(("bool", "bool", "list", "int")),
              "scalar_scale": rng.random() < 0.5,
              "omit_defaults": rng.random() < 0.4,
-             "ctor": rng.choice(("native", "native", "slim", "no_mask_apply", "direct"))}
+             "ctor": rng.choice(("native", "native", "slim", "no_mask_apply", "direct", "obj_slim", "obj_native"))}
+        # round 5 (R5-C): memory layout of value / mask arrays, structures built from structures, spellings of
+        # the Mask2D constructor.  Equal values, so the model and the oracle do not care.
+        r = rng.random()
+        v["lay"] = "C" if r < 0.5 else rng.choice(("F", "neg", "strided", "ro", "F", "strided"))
+        r = rng.random()
+        v["mlay"] = "C" if r < 0.6 else rng.choice(("F", "neg", "strided", "ro"))
+        r = rng.random()
+        v["mask_ctor"] = "plain" if r < 0.6 else rng.choice(("from_mask", "from_mask", "invert", "zero_origin"))
+        if v["mask_ctor"] == "from_mask" and "origin" in case and isinstance(case["origin"], list) \
+                and "scales" in case and rng.random() < 0.5:
+            # a Mask2D built from a Mask2D of ANOTHER geometry with the explicit origin exactly (0.0, 0.0)
+            case = {**case, "origin": ["0", "0"]}
         if dt in ("i8", "list"):
             for k in self.VALUE_KEYS:
                 if k in case and any(Fraction(x).denominator != 1 for x in case[k]):
@@ -537,17 +586,50 @@ class C14(PropertyCheck):
         """the value array of the case in the dtype / container the variant asks for."""
         fr = [Fraction(x) for x in case[key]]
         dt = self._var(case).get("dt", "f8")
+        lay = self._var(case).get("lay", "C")
         integral = all(f.denominator == 1 for f in fr)
         if dt == "i8" and integral:
-            return np.array([int(f) for f in fr], dtype=np.int64).reshape(h, w)
+            return self._reg(self._layout(np.array([int(f) for f in fr], dtype=np.int64).reshape(h, w), lay))
         if dt == "f4":
-            return np.array([float(f) for f in fr], dtype=np.float32).reshape(h, w)
+            return self._reg(self._layout(np.array([float(f) for f in fr], dtype=np.float32).reshape(h, w), lay))
+        if dt == "listf" and not need_ndarray:      # python floats only (decades: no integer overflow)
+            flat = [float(f) for f in fr]
+            return self._reg([flat[y * w:(y + 1) * w] for y in range(h)])
         if dt == "list" and not need_ndarray:
             flat = [int(f) if integral else float(f) for f in fr]
-            return [flat[y * w:(y + 1) * w] for y in range(h)]
+            return self._reg([flat[y * w:(y + 1) * w] for y in range(h)])
         if dt == "list" and integral:
-            return np.array([int(f) for f in fr], dtype=np.int64).reshape(h, w)
-        return np.array([float(f) for f in fr]).reshape(h, w)
+            return self._reg(self._layout(np.array([int(f) for f in fr], dtype=np.int64).reshape(h, w), lay))
+        return self._reg(self._layout(np.array([float(f) for f in fr]).reshape(h, w), lay))
+
+    @staticmethod
+    def _layout(a, lay):
+        """an array EQUAL to the C-contiguous 2-D array `a` in another memory layout (round 5, R5-C): Fortran
+        order, negative strides, a strided window of a larger buffer full of junk, read-only"""
+        if lay == "F":
+            return np.asfortranarray(a)
+        if lay == "neg":
+            return np.ascontiguousarray(a[::-1, ::-1])[::-1, ::-1]
+        if lay == "strided":
+            h, w = a.shape
+            big = np.full((2 * h + 1, 3 * w + 2), 77, dtype=a.dtype)
+            view = big[1::2, 1::3][:h, :w]
+            view[...] = a
+            return view
+        if lay == "ro":
+            a = a.copy()
+            a.setflags(write=False)
+            return a
+        return a
+
+    # -- round 5 (R5-B): while an ownership history runs, every array / structure handed to or returned by the
+    #    API is registered here, so that it can be scribbled over afterwards
+    _own = None
+
+    def _reg(self, *objs):
+        if self._own is not None:
+            self._own.extend(objs)
+        return objs[0] if objs else None
 
     def _shp(self, case, pair):
         k = self._var(case).get("shp", "tuple")
@@ -569,11 +651,12 @@ class C14(PropertyCheck):
 
     def _mask_arg(self, case, bits2d):
         k = self._var(case).get("mask_in", "bool")
+        lay = self._var(case).get("mlay", "C")
         if k == "list":
-            return [[bool(b) for b in row] for row in bits2d]
+            return self._reg([[bool(b) for b in row] for row in bits2d])
         if k == "int":
-            return np.array(bits2d, dtype=np.int64)
-        return np.array(bits2d, dtype=bool)
+            return self._reg(self._layout(np.array(bits2d, dtype=np.int64), lay))
+        return self._reg(self._layout(np.array(bits2d, dtype=bool), lay))
 
     def _generate_base(self, tier, rng):
         quick = tier == "quick"
@@ -993,6 +1076,310 @@ class C14(PropertyCheck):
                     ops.append(self._rand_read(rng, h, w, bits))
             yield case("hist_decoy_derive", [W], ops)
 
+    # ==================================================================================================
+    # Round 5/6 hardening: decades (R5-A/E), ownership histories (R5-B), configuration histories (R5-D),
+    # option crossing (R5-F), always-on mid-size cases (R5-E).  Layout / container variants (R5-C) live in
+    # `_harden`, `_vals`, `_mask_arg`, `_mask2d_of`, `_make_array`, `_unmasked_pair` and apply to every stream.
+    # ==================================================================================================
+    def _small_case(self, rng, kind):
+        """one seeded ordinary small case of the given kind (dyadic geometry: every coordinate an exact double)"""
+        if kind == "util_resize":
+            h, w = rng.randint(1, 6), rng.randint(1, 6)
+            return {"kind": "util_resize", "h": h, "w": w, "shape": [rng.randint(1, 8), rng.randint(1, 8)],
+                    "src": qlist(_values(rng, h * w)), "pad": q(gen.dyadic(rng, -3, 3, 2)),
+                    "origin": [rng.randrange(h), rng.randrange(w)] if rng.random() < 0.2 else None}
+        if kind == "util_extract":
+            h, w = rng.randint(1, 6), rng.randint(1, 6)
+            y0, x0 = rng.randint(-2, h), rng.randint(-2, w)
+            return {"kind": "util_extract", "h": h, "w": w, "src": qlist(_values(rng, h * w)),
+                    "win": [y0, rng.randint(y0, h + 2), x0, rng.randint(x0, w + 2)]}
+        if kind in ("mask_chain", "array_chain"):
+            h, w = rng.randint(1, 6), rng.randint(1, 6)
+            m = gen.random_mask(rng, h, w)[0]
+            r = rng.random()
+            if r < 0.45 or kind == "mask_chain":
+                h2, w2 = h + rng.randint(0, 3), w + rng.randint(0, 3)
+                if rng.random() < 0.3:
+                    h2, w2 = rng.randint(1, 8), rng.randint(1, 8)
+                steps = [{"k": "resize", "shape": [h2, w2], "mask_pad": rng.choice((0, 1))},
+                         {"k": "resize", "shape": [h, w], "mask_pad": rng.choice((0, 1))}]
+                rt = h2 >= h and w2 >= w
+            elif r < 0.8:
+                kh, kw = rng.choice((1, 3, 5)), rng.choice((1, 3, 5))
+                steps = [{"k": "pad", "kernel": [kh, kw], "mask_pad": rng.choice((0, 1))},
+                         {"k": "trim", "kernel": [kh, kw]}]
+                rt = True
+            else:
+                steps = [{"k": "resize", "shape": [rng.randint(1, 8), rng.randint(1, 8)], "mask_pad": rng.choice((0, 1))}]
+                rt = False
+            base = {"kind": kind, "mask": mask_json(m), **_geom_case(rng, exact=True), "steps": steps, "roundtrip": rt}
+            if kind == "array_chain":
+                base.update(native=qlist(_values(rng, h * w)), store_native=rng.random() < 0.5)
+            return base
+        if kind == "mask_trim":
+            ih, iw = rng.randint(1, 5), rng.randint(1, 5)
+            kh, kw = rng.choice((1, 3, 5)), rng.choice((1, 3, 5))
+            return {"kind": "mask_trim", "image_shape": [ih, iw], "kernel": [kh, kw], **_geom_case(rng, exact=True),
+                    "padded": qlist(_values(rng, (ih + kh - 1) * (iw + kw - 1)))}
+        if kind in ("apply_mask", "apply_mask_chain"):
+            h, w = rng.randint(2, 7), rng.randint(2, 7)
+            kh, kw = rng.choice((1, 3, 3, 5)), rng.choice((1, 3, 3, 5))
+            margin = rng.choice((0, 0, 1))
+            margin = margin if min(h, w) > 2 * margin else 0
+            if kind == "apply_mask":
+                c = self._apply_mask_case(rng, gen.random_mask(rng, h, w, margin=margin)[0], kh, kw, "")
+            else:
+                c = self._apply_mask_chain_case(rng, h, w, kh, kw, rng.choice(("superset", "subset", "disjoint",
+                                                                               "shifted", "random")), 2, margin)
+            c.update(_geom_case(rng, exact=True))
+            return c
+        if kind == "zoom":
+            h, w = rng.randint(1, 7), rng.randint(1, 8)
+            m = gen.random_mask(rng, h, w)[0]
+            if all(b for row in m for b in row):
+                m[rng.randrange(h)][rng.randrange(w)] = False
+            c = self._zoom_case(rng, m, rng.choice((0, 1, 1, 2)), "")
+            c.update(_geom_case(rng, exact=True))
+            return c
+        raise ValueError(kind)
+
+    DEC_VALUE_KEYS = ("src", "native", "data", "padded")
+    DEC_MODES = {   # mode -> kinds that have the ingredient
+        "world": ("array_chain", "mask_chain", "apply_mask", "apply_mask_chain", "zoom", "mask_trim"),
+        "values": ("util_resize", "util_extract", "array_chain", "apply_mask", "zoom", "mask_trim", "apply_mask_chain"),
+        "noise": ("apply_mask", "apply_mask_chain"),
+        "scales": ("array_chain", "mask_chain", "apply_mask", "apply_mask_chain"),
+        "origin_far": ("array_chain", "mask_chain", "apply_mask", "apply_mask_chain", "mask_trim"),
+        "origin_tiny": ("array_chain", "mask_chain", "apply_mask", "apply_mask_chain"),
+        "pixelwise": ("util_resize", "util_extract", "array_chain", "apply_mask", "zoom", "mask_trim"),
+        "near_uniform_values": ("util_resize", "array_chain", "apply_mask", "zoom", "apply_mask_chain", "util_extract"),
+        "near_uniform_noise": ("apply_mask", "apply_mask_chain"),
+        "near_equal_scales": ("array_chain", "mask_chain", "apply_mask", "apply_mask_chain"),
+        "near_zero_values": ("util_resize", "array_chain", "apply_mask", "zoom", "mask_trim", "util_extract"),
+        "pad": ("util_resize",),
+        "mantissa": ("util_resize", "util_extract", "array_chain", "apply_mask", "zoom", "mask_trim", "apply_mask_chain"),
+        "extreme_values": ("util_resize", "util_extract", "array_chain", "apply_mask", "zoom", "mask_trim"),
+        "extreme_world": ("array_chain", "mask_chain", "apply_mask", "apply_mask_chain", "zoom"),
+    }
+
+    def _decade(self, rng, case, mode):
+        """the same small case with the whole world / one ingredient moved to another decade (powers of two: all
+        inputs stay exact doubles), or with a nearly-uniform / nearly-equal / nearly-zero ingredient"""
+        c = dict(case)
+        two = Fraction(2)
+
+        def rep(f):   # the double nearest to f, as an exact Fraction (model and code see the same number)
+            return Fraction(float(f))
+
+        def mul(keys, fac):
+            for key in keys:
+                if key in c and c[key] is not None:
+                    c[key] = qlist([rep(Fraction(v) * fac) for v in c[key]])
+
+        def k_of(lo, hi):
+            return rng.choice((-1, 1)) * rng.randint(lo, hi)
+
+        vkeys = [k for k in self.DEC_VALUE_KEYS if k in c]
+        if mode == "world":
+            g = two ** k_of(8, 45)
+            mul(("scales", "origin"), g)
+            vf = two ** k_of(8, 45)
+            mul(vkeys, vf)
+            mul(("noise",), two ** k_of(8, 45))
+        elif mode == "values":
+            mul(vkeys, two ** k_of(8, 45))
+        elif mode == "noise":
+            mul(("noise",), two ** k_of(8, 45))
+        elif mode == "scales":
+            mul(("scales",), two ** k_of(8, 40))
+        elif mode == "origin_far":
+            c["origin"] = qlist([rep(Fraction(v) + rng.choice((-1, 1)) * two ** rng.randint(10, 40)) for v in c["origin"]])
+        elif mode == "origin_tiny":
+            t = two ** (-rng.randint(20, 40))
+            c["origin"] = qlist([rep((Fraction(v) if Fraction(v) != 0 else Fraction(3, 8)) * t) for v in c["origin"]])
+        elif mode == "pixelwise":
+            for key in vkeys:
+                c[key] = qlist([rep(Fraction(v) * two ** k_of(0, 45)) for v in c[key]])
+        elif mode in ("near_uniform_values", "near_uniform_noise"):
+            keys = vkeys if mode == "near_uniform_values" else ["noise"]
+            j = rng.choice((20, 25, 30, 40))
+            base = Fraction(rng.randint(1, 31)) * two ** (k_of(0, 40) if rng.random() < 0.7 else 0)
+            if mode == "near_uniform_values" and rng.random() < 0.5:
+                base = -base
+            for key in keys:
+                n = len(c[key])
+                es = rng.sample(range(0, 2 * n + 3), n)
+                if rng.random() < 0.5:
+                    es[rng.randrange(n)] = 0
+                c[key] = qlist([rep(base * (1 + Fraction(e, 2 ** j))) for e in es])
+        elif mode == "near_equal_scales":
+            s0 = Fraction(c["scales"][0]) * two ** (k_of(0, 40) if rng.random() < 0.6 else 0)
+            s1 = s0 * (1 + Fraction(rng.choice((-1, 1)), 2 ** 20))
+            c["scales"] = qlist([rep(s0), rep(s1)] if rng.random() < 0.5 else [rep(s1), rep(s0)])
+        elif mode == "near_zero_values":
+            for key in vkeys:
+                vals = [Fraction(v) for v in c[key]]
+                tiny = [i for i in range(len(vals)) if rng.random() < 0.6] or [0]
+                if rng.random() < 0.25:
+                    tiny = list(range(len(vals)))
+                for i in tiny:
+                    vals[i] = rep(vals[i] * two ** (-rng.randint(30, 60)))
+                c[key] = qlist(vals)
+        elif mode == "mantissa":
+            # values (and noise) that need > 40 significant bits: a float32 / rounded intermediate loses them
+            for key in vkeys + (["noise"] if "noise" in c else []):
+                c[key] = qlist([rep(Fraction(v) + Fraction(rng.randint(1, 2 ** 44 - 1), 2 ** 46)) for v in c[key]])
+            if "pad" in c:
+                c["pad"] = q(rep(Fraction(c["pad"]) + Fraction(rng.randint(1, 2 ** 44 - 1), 2 ** 46)))
+        elif mode == "pad":
+            p0 = Fraction(c["pad"]) if Fraction(c["pad"]) != 0 else Fraction(3, 4)
+            c["pad"] = q(rep(p0 * two ** k_of(20, 60)))
+        elif mode == "extreme_values":
+            mul(vkeys, two ** k_of(100, 480))
+            mul(("noise",), two ** k_of(100, 480))
+            if "pad" in c and rng.random() < 0.5:
+                c["pad"] = q(rep((Fraction(c["pad"]) or Fraction(1)) * two ** k_of(100, 480)))
+        elif mode == "extreme_world":
+            mul(("scales", "origin"), two ** k_of(60, 400))
+            mul(vkeys, two ** k_of(60, 400))
+        else:
+            raise ValueError(mode)
+        if "scales" in c:
+            sy, sx = (abs(Fraction(v)) for v in c["scales"])
+            oy, ox = (abs(Fraction(v)) for v in c["origin"])
+            c["mag"] = q(max(oy, ox, sy * 16, sx * 16))
+        return c
+
+    def _decade_cases(self, tier, rng):
+        modes = list(self.DEC_MODES)
+        for i in range(280 if tier == "quick" else 2800):
+            mode = modes[i % len(modes)]
+            kinds = self.DEC_MODES[mode]
+            kind = kinds[(i // len(modes)) % len(kinds)]
+            case = self._harden(rng, self._small_case(rng, kind))
+            v = dict(case["variant"])
+            v["dt"] = rng.choice(("f8", "f8", "listf", "obj"))   # no integer / float32 route: magnitudes matter
+            case = self._decade(rng, {**case, "variant": v}, mode)
+            case["tag"] = f"dec_{mode}"
+            yield case
+
+    def _own_cases(self, tier, rng):
+        kinds = ("util_resize", "util_extract", "mask_chain", "array_chain", "mask_trim", "apply_mask",
+                 "apply_mask_chain", "zoom", "array_chain", "apply_mask", "zoom", "util_resize")
+        hows = ("nan", "add", "neg")
+        for i in range(132 if tier == "quick" else 1320):
+            kind = kinds[i % len(kinds)]
+            sub = self._harden(rng, self._small_case(rng, kind))
+            sub["tag"] = "own_sub"
+            yield {"tag": f"own_{kind}", "kind": "own", "sub": sub, "rounds": 3, "scribble": hows[i % 3]}
+
+    def _cfg_cases(self, tier, rng):
+        """configuration histories (R5-D): general.structures.native_binned_only — the only configuration value
+        the anchored code reads on these paths — is flipped BETWEEN calls on reused and on rebuilt objects; the
+        storage mode of every result follows the value in force when it (or the object it derives from) was built,
+        values / masks / coordinates never change"""
+        kernels = [(1, 1), (3, 3), (1, 3), (3, 5)]
+        for i in range(60 if tier == "quick" else 600):
+            h, w = rng.randint(2, 6), rng.randint(2, 7)
+            W = self._world(rng, h, w, exact=True)
+            bits = self._bits2(W)
+            reads = ("resize", "pad", "trim", "zoom", "apply_mask", "resize", "apply_mask")
+            focus = self._rand_read(rng, h, w, bits, kinds=reads)
+            ops = []
+            cfg = False
+            if i % 3 == 0:
+                cfg = True
+                ops.append({"op": "config", "value": True})
+            ops.append(dict(focus))
+            for _r in range(rng.randint(2, 4)):
+                cfg = not cfg if rng.random() < 0.8 else cfg
+                ops.append({"op": "config", "value": cfg})
+                r = rng.random()
+                if r < 0.3:
+                    ops.append({"op": "rebuild"})
+                elif r < 0.45:
+                    ed = self._rand_mask_edit(rng, h, w, bits)
+                    if ed:
+                        ops.append(ed)
+                elif r < 0.55:
+                    ed = self._rand_value_edit(rng, h, w, bits)
+                    if ed:
+                        ops.append(ed)
+                if focus["op"] == "zoom" and all(b for row in bits for b in row):
+                    focus = self._rand_read(rng, h, w, bits, kinds=("resize", "apply_mask"))
+                if focus["op"] == "trim":
+                    focus = self._rand_read(rng, h, w, bits, kinds=("trim",))
+                ops.append(dict(focus))
+                if rng.random() < 0.4:
+                    ops.append(self._rand_read(rng, h, w, bits, kinds=reads + ("mask_resize",)))
+            kh, kw = rng.choice(kernels)
+            yield {"tag": "hist_config", "kind": "history", "worlds": [W], "kernel": [kh, kw], "ops": ops}
+
+    def _option_cases(self, tier, rng):
+        """rarely combined options (R5-F): the constructor options of Imaging (read off its signature) crossed
+        pairwise — each non-default value of one with each non-default value of another — on masks whose blurring
+        region does / does not leave the frame; the dataset-level trim after the automatic padding; zoom and
+        resize of natively stored arrays carrying a header"""
+        import inspect
+
+        aa = load_autoarray()
+        params = inspect.signature(aa.Imaging.__init__).parameters
+        table = {k: v for k, v in self.IMAGING_OPTION_VALUES.items() if k in params}
+        names = sorted(table)
+        combos = [({a: va}) for a in names for va in table[a]]
+        combos += [{a: va, b: vb} for a, b in itertools.combinations(names, 2) for va in table[a] for vb in table[b]]
+        reps = 2 if tier == "quick" else 12
+        for opts in combos:
+            for rep_i in range(reps):
+                h, w = rng.randint(2, 6), rng.randint(2, 6)
+                kh, kw = rng.choice((3, 3, 5)), rng.choice((1, 3, 3, 5))
+                margin = 0 if rep_i % 2 == 0 else (1 if min(h, w) > 2 else 0)
+                m = gen.random_mask(rng, h, w, margin=margin)[0]
+                if all(b for row in m for b in row):
+                    m[rng.randrange(h)][rng.randrange(w)] = False
+                case = self._harden(rng, self._apply_mask_case(rng, m, kh, kw, "opt_pair" if len(opts) > 1 else "opt_single"))
+                o = dict(opts)
+                if rng.random() < 0.5:
+                    o["ds_trim"] = True
+                case["opts"] = o
+                yield case
+        # two successive apply_mask calls carry the options along (self.psf, self.over_sampling, ...)
+        for opts in combos[:: (4 if tier == "quick" else 1)]:
+            if opts.get("pad_for_convolver"):
+                continue
+            h, w = rng.randint(3, 5), rng.randint(3, 5)
+            case = self._apply_mask_chain_case(rng, h, w, rng.choice((1, 3)), rng.choice((3, 5)),
+                                               rng.choice(("superset", "disjoint", "shifted", "random")), 2, 0)
+            case = self._harden(rng, case)
+            case.update(tag="opt_chain", opts=dict(opts))
+            yield case
+        # Array2D options: natively stored arrays and headers through zoom / resize / pad / trim
+        for i in range(40 if tier == "quick" else 400):
+            kind = ("zoom", "array_chain")[i % 2]
+            case = self._harden(rng, self._small_case(rng, kind))
+            v = dict(case["variant"])
+            v["header"] = i % 4 < 2
+            case["variant"] = v
+            if kind == "zoom":
+                case["store_native"] = i % 3 != 0
+            case["tag"] = f"opt_{kind}_{'header' if v['header'] else 'plain'}"
+            yield case
+
+    def _always_large(self, rng):
+        """quick tier (R5-E): a handful of always-on mid-size cases beyond 2^15 / 2^16 pixels, judged by the
+        vectorised statement of the property (the thorough tier has `_conventional_large`)"""
+        quota = {32768: {"large_util_resize": 1, "large_zoom_unmasked": 1},
+                 65536: {"large_util_resize": 2, "large_array_resize": 1, "large_extract_frame": 1}}
+        for c, qt in quota.items():
+            seen = {}
+            for case in self.generate_large([c], rng):
+                t = case["tag"]
+                if seen.get(t, 0) < qt.get(t, 0):
+                    seen[t] = seen.get(t, 0) + 1
+                    yield {**case, "tag": t.replace("large_", "large_always_")}
+                if all(seen.get(t, 0) >= n for t, n in qt.items()):
+                    break
+
     # ------------------------------------------------------------------ round 4: constant-directed large cases
     def generate_large(self, hints, rng):
         """sizes on both sides of every new integer constant, in EVERY size dimension C14's code loops over:
@@ -1202,31 +1589,73 @@ class C14(PropertyCheck):
         og = tuple(float(Fraction(v)) for v in case["origin"])
         return sc, og
 
-    @staticmethod
-    def _mask_obs(mask):
+    def _mask_obs(self, mask):
+        self._reg(mask)
         return {"mask": mask_json(np.asarray(mask).astype(bool)),
                 "scales": qlist(mask.pixel_scales), "origin": qlist(mask.origin)}
 
+    # round 5 (R5-D): True while general.structures.native_binned_only is switched on by a configuration
+    # history.  In that mode `.slim` of every structure IS its native array (documented: "data structures are
+    # only stored in their native format"), so the slim observation is read off the native array instead.
+    _cfg_native = False
+
     def _arr_obs(self, aa, arr):
         mask = arr.mask
-        grid = np.asarray(aa.Grid2D.from_mask(mask=mask).array).reshape(-1, 2)
+        gobj = aa.Grid2D.from_mask(mask=mask)
+        grid = np.asarray(gobj.array).reshape(-1, 2)
+        nobj = arr.native
+        nat = np.asarray(nobj.array)
+        if self._cfg_native:
+            slim = nat[~np.asarray(mask).astype(bool)]
+        else:
+            sobj = arr.slim
+            self._reg(sobj)
+            slim = np.asarray(sobj.array).ravel()
+        self._reg(arr, gobj, nobj)
         return {**self._mask_obs(mask),
-                "native": qlist(np.asarray(arr.native.array).ravel()),
-                "slim": qlist(np.asarray(arr.slim.array).ravel()),
+                "native": qlist(nat.ravel()),
+                "slim": qlist(slim),
                 "store_native": bool(arr.store_native),
                 "grid": [qlist(p) for p in grid]}
 
     def _ds_obs(self, aa, ds, h, w):
         dobs = self._arr_obs(aa, ds.data)
         nobs = self._arr_obs(aa, ds.noise_map)
+        gu = ds.grids.uniform
+        self._reg(gu, ds.psf)
         return {"padded": tuple(ds.data.shape_native) != (h, w), "data": dobs, "noise": nobs,
-                "grid_uniform": [qlist(p) for p in np.asarray(ds.grids.uniform.array).reshape(-1, 2)],
+                "grid_uniform": [qlist(p) for p in np.asarray(gu.array).reshape(-1, 2)],
                 "ds_mask": self._mask_obs(ds.mask)}
 
     def _mask2d(self, aa, case):
+        return self._mask2d_of(aa, case, _bits(case["mask"]))
+
+    def _mask2d_of(self, aa, case, bits2d):
+        """Mask2D of the case's geometry holding `bits2d`, through the constructor spelling the variant names
+        (round 5, R5-C / R5-F): plain; built from another Mask2D that has a DIFFERENT geometry (the explicit
+        pixel scales and origin — also an origin of exactly (0.0, 0.0) — must win); inverted bits with
+        invert=True; a zero origin omitted / given as python ints"""
         sc, og = self._geom(case)
-        return aa.Mask2D(mask=self._mask_arg(case, _bits(case["mask"])),
-                         pixel_scales=self._scales_arg(case, sc), origin=og)
+        how = self._var(case).get("mask_ctor", "plain")
+        arg = self._mask_arg(case, bits2d)
+        if how == "from_mask":
+            other = aa.Mask2D(mask=arg, pixel_scales=(sc[1] * 3.0, sc[0] * 0.5),
+                              origin=(og[0] + 2.5 * sc[0], og[1] - 1.5 * sc[1] - 0.75))
+            self._reg(other)
+            return self._reg(aa.Mask2D(mask=other, pixel_scales=self._scales_arg(case, sc), origin=og))
+        if how == "invert":
+            if isinstance(arg, list):
+                arg = [[not b for b in row] for row in arg]
+            else:
+                # (an INTEGER 0/1 array with invert=True is bit-inverted by the constructor — ~1 = -2 is truthy,
+                #  everything ends up masked; that combination is outside C14's statement and is not fed)
+                arg = self._reg(~arg.astype(bool))
+            return self._reg(aa.Mask2D(mask=arg, pixel_scales=self._scales_arg(case, sc), origin=og, invert=True))
+        if how == "zero_origin" and og == (0.0, 0.0):
+            if self._var(case).get("omit_defaults"):
+                return self._reg(aa.Mask2D(mask=arg, pixel_scales=self._scales_arg(case, sc)))
+            return self._reg(aa.Mask2D(mask=arg, pixel_scales=self._scales_arg(case, sc), origin=(0, 0)))
+        return self._reg(aa.Mask2D(mask=arg, pixel_scales=self._scales_arg(case, sc), origin=og))
 
     def _make_array(self, aa, case, mask, key, h, w, store_native=False):
         """Array2D on `mask` holding case[key], through the constructor route the variant names."""
@@ -1236,36 +1665,86 @@ class C14(PropertyCheck):
         if v.get("dt") == "obj":   # an autoarray structure where an array is accepted
             vals = aa.Array2D.no_mask(values=self._vals({**case, "variant": {}}, key, h, w),
                                       pixel_scales=mask.pixel_scales, origin=mask.origin).native
+        kwh = {"header": aa.Header(header_sci_obj={"verif": 1})} if v.get("header") else {}
         if ctor == "slim" and v.get("dt") != "obj":
             m = np.asarray(mask).astype(bool)
             flat = np.asarray(vals, dtype=np.asarray(vals).dtype).reshape(h, w)[~m]
-            if v.get("dt") == "list":
+            if v.get("dt") in ("list", "listf"):
                 flat = flat.tolist()
-            return aa.Array2D(values=flat, mask=mask, store_native=store_native)
+            return self._reg(aa.Array2D(values=self._reg(flat), mask=mask, store_native=store_native, **kwh))
         if ctor == "no_mask_apply" and not store_native:
-            return aa.Array2D.no_mask(values=vals, pixel_scales=mask.pixel_scales,
-                                      origin=mask.origin).apply_mask(mask=mask)
-        return aa.Array2D(values=vals, mask=mask, store_native=store_native)
+            return self._reg(aa.Array2D.no_mask(values=vals, pixel_scales=mask.pixel_scales,
+                                                origin=mask.origin, **kwh).apply_mask(mask=mask))
+        if ctor in ("obj_slim", "obj_native") and v.get("dt") != "obj":
+            # round 5 (R5-C): an Array2D built from an Array2D that lives on an equal but distinct mask — slim
+            # stored, or natively stored — instead of from a plain array
+            first = aa.Array2D(values=vals, mask=self._reg(self._mask2d(aa, case)),
+                               store_native=(ctor == "obj_native"))
+            self._reg(first)
+            return self._reg(aa.Array2D(values=first, mask=mask, store_native=store_native, **kwh))
+        return self._reg(aa.Array2D(values=vals, mask=mask, store_native=store_native, **kwh))
 
     def _unmasked_pair(self, aa, case, h, w, sc, og):
         """unmasked data and noise map: Array2D.no_mask, or Array2D(values, mask=Mask2D.all_false(...))"""
         out = []
         for key in ("data", "noise"):
             vals = self._vals(case, key, h, w)
-            if self._var(case).get("ctor") in ("slim", "no_mask_apply"):
+            ctor = self._var(case).get("ctor")
+            if ctor in ("slim", "no_mask_apply"):
                 m = aa.Mask2D.all_false(shape_native=(h, w), pixel_scales=self._scales_arg(case, sc), origin=og)
-                out.append(aa.Array2D(values=vals, mask=m))
+                out.append(aa.Array2D(values=vals, mask=self._reg(m)))
+            elif ctor == "obj_native":     # round 5: a natively stored unmasked structure
+                m = aa.Mask2D.all_false(shape_native=(h, w), pixel_scales=self._scales_arg(case, sc), origin=og)
+                out.append(aa.Array2D(values=vals, mask=self._reg(m), store_native=True))
+            elif ctor == "obj_slim" and self._var(case).get("dt") in ("f8", "i8", "f4"):
+                # round 5: the slim 1-D values with an explicit shape_native
+                flat = self._reg(np.ascontiguousarray(np.asarray(vals)).reshape(-1))
+                out.append(aa.Array2D.no_mask(values=flat, shape_native=self._shp(case, (h, w)),
+                                              pixel_scales=self._scales_arg(case, sc), origin=og))
             else:
                 out.append(aa.Array2D.no_mask(values=vals, pixel_scales=self._scales_arg(case, sc), origin=og))
+        self._reg(*out)
         return out
 
     def _psf(self, aa, case, kh, kw, sc):
         dt = self._var(case).get("dt", "f8")
-        if dt in ("i8", "list"):
+        how = (case.get("opts") or {}).get("psf", "ones")
+        if how == "none":
+            return None
+        if how == "asym":     # not normalised, asymmetric under every flip
+            base = np.arange(1, kh * kw + 1).reshape(kh, kw)
+            vals = base.astype(np.int64) if dt in ("i8", "list") else base.astype(float) / 4.0
+        elif dt in ("i8", "list"):
             vals = np.ones((kh, kw), dtype=np.int64) if dt == "i8" else [[1] * kw for _ in range(kh)]
         else:
             vals = np.ones((kh, kw))
-        return aa.Kernel2D.no_mask(values=vals, pixel_scales=self._scales_arg(case, sc))
+        return self._reg(aa.Kernel2D.no_mask(values=self._reg(vals), pixel_scales=self._scales_arg(case, sc)))
+
+    IMAGING_OPTION_VALUES = {   # non-default, legal values per constructor option (JSON spellings)
+        "psf": ["none", "asym"],
+        "noise_covariance_matrix": [True],
+        "over_sampling": ["obj", "sub2"],
+        "pad_for_convolver": [True],
+        "use_normalized_psf": [False, None],
+        "check_noise_map": [False],
+    }
+
+    def _imaging_kwargs(self, aa, case, n_cov, noise_flat):
+        """keyword arguments of Imaging(...) for the case's option set (round 5, R5-F)"""
+        o = case.get("opts") or {}
+        kw = {}
+        if o.get("noise_covariance_matrix"):
+            kw["noise_covariance_matrix"] = self._reg(np.diag(np.asarray(noise_flat[:n_cov], dtype=float) ** 2))
+        if o.get("over_sampling") == "obj":
+            kw["over_sampling"] = aa.OverSamplingDataset()
+        elif o.get("over_sampling") == "sub2":
+            kw["over_sampling"] = aa.OverSamplingDataset(uniform=aa.OverSamplingUniform(sub_size=2),
+                                                         pixelization=aa.OverSamplingUniform(sub_size=1))
+        if "use_normalized_psf" in o:
+            kw["use_normalized_psf"] = o["use_normalized_psf"]
+        if "check_noise_map" in o:
+            kw["check_noise_map"] = o["check_noise_map"]
+        return kw
 
     def run_impl(self, case):
         aa = load_autoarray()
@@ -1283,8 +1762,8 @@ class C14(PropertyCheck):
             padv = int(pad) if pad.denominator == 1 and self._var(case).get("pad") == "int" else float(pad)
             if not (pad == 0 and self._var(case).get("omit_defaults")):
                 kw["pad_value"] = padv
-            out = array_2d_util.resized_array_2d_from(
-                array_2d=src, resized_shape=self._shp(case, case["shape"]), **kw)
+            out = self._reg(array_2d_util.resized_array_2d_from(
+                array_2d=src, resized_shape=self._shp(case, case["shape"]), **kw))
             if tuple(out.shape) != tuple(case["shape"]):
                 return {"err": "wrong_shape", "msg": str(out.shape)}
             return qlist(out.ravel())
@@ -1293,7 +1772,7 @@ class C14(PropertyCheck):
             y0, y1, x0, x1 = case["win"]
             if self._var(case).get("shp") == "npint":
                 y0, y1, x0, x1 = (np.int64(v) for v in (y0, y1, x0, x1))
-            out = array_2d_util.extracted_array_2d_from(array_2d=src, y0=y0, y1=y1, x0=x0, x1=x1)
+            out = self._reg(array_2d_util.extracted_array_2d_from(array_2d=src, y0=y0, y1=y1, x0=x0, x1=x1))
             return {"shape": [int(out.shape[0]), int(out.shape[1])], "values": qlist(out.ravel())}
         if kind == "mask_chain":
             mask = self._mask2d(aa, case)
@@ -1322,6 +1801,7 @@ class C14(PropertyCheck):
             pa = aa.Array2D.no_mask(values=self._vals(case, "padded", hp, wp),
                                     pixel_scales=self._scales_arg(case, sc), origin=og)
             out = pm.trimmed_array_from(padded_array=pa, image_shape=self._shp(case, (ih, iw)))
+            self._reg(pm, pa, out, out.mask)
             return {"shape": [int(v) for v in out.shape_native],
                     "native": qlist(np.asarray(out.native.array).ravel()),
                     "scales": qlist(out.mask.pixel_scales), "origin": qlist(out.mask.origin),
@@ -1332,40 +1812,133 @@ class C14(PropertyCheck):
             h, w = case["mask"]["h"], case["mask"]["w"]
             kh, kw = case["kernel"]
             psf = self._psf(aa, case, kh, kw, sc)
-            if self._var(case).get("ctor") == "direct":
+            opts = case.get("opts") or {}
+            nflat = [float(Fraction(v)) for v in case["noise"]]
+            if self._var(case).get("ctor") == "direct" or opts.get("pad_for_convolver"):
                 # the same functionality without apply_mask: Imaging(...) of already-masked arrays with
                 # pad_for_convolver=True performs the automatic padding itself
-                data = aa.Array2D(values=self._vals(case, "data", h, w), mask=mask)
-                noise = aa.Array2D(values=self._vals(case, "noise", h, w), mask=mask)
-                ds = aa.Imaging(data=data, noise_map=noise, psf=psf, pad_for_convolver=True)
+                data = self._reg(aa.Array2D(values=self._vals(case, "data", h, w), mask=mask))
+                noise = self._reg(aa.Array2D(values=self._vals(case, "noise", h, w), mask=mask))
+                unm = [v for v, b in zip(nflat, case["mask"]["bits"]) if b == "0"]
+                ds = aa.Imaging(data=data, noise_map=noise, psf=psf, pad_for_convolver=True,
+                                **self._imaging_kwargs(aa, case, len(unm), unm))
             else:
                 data, noise = self._unmasked_pair(aa, case, h, w, sc, og)
-                ds = aa.Imaging(data=data, noise_map=noise, psf=psf).apply_mask(mask=mask)
-            return self._ds_obs(aa, ds, h, w)
+                ds = aa.Imaging(data=data, noise_map=noise, psf=psf,
+                                **self._imaging_kwargs(aa, case, h * w, nflat)).apply_mask(mask=mask)
+            obs = self._ds_obs(aa, ds, h, w)
+            if "ds_trim" in opts:
+                # round 5 (R5-F): the dataset-level trim after an automatic padding (grids were read above, so
+                # cached quantities of the padded dataset exist): padding then trimming is the identity
+                obs["ds_trim"] = None
+                if obs["padded"]:
+                    obs["ds_trim"] = self._ds_obs(aa, ds.trimmed_after_convolution_from(kernel_shape=(kh, kw)), h, w)
+            return obs
         if kind == "apply_mask_chain":
             sc, og = self._geom(case)
             h, w = case["h"], case["w"]
             data, noise = self._unmasked_pair(aa, case, h, w, sc, og)
             kh, kw = case["kernel"]
             psf = self._psf(aa, case, kh, kw, sc)
-            ds = aa.Imaging(data=data, noise_map=noise, psf=psf)
+            ds = aa.Imaging(data=data, noise_map=noise, psf=psf,
+                            **self._imaging_kwargs(aa, case, h * w, [float(Fraction(v)) for v in case["noise"]]))
             steps = []
             for mj in case["masks"]:
-                mask = aa.Mask2D(mask=self._mask_arg(case, _bits(mj)), pixel_scales=self._scales_arg(case, sc),
-                                 origin=og)
+                mask = self._mask2d_of(aa, case, _bits(mj))
                 ds = ds.apply_mask(mask=mask)
                 steps.append(self._ds_obs(aa, ds, h, w))
             return steps
         if kind == "zoom":
             mask = self._mask2d(aa, case)
             h, w = case["mask"]["h"], case["mask"]["w"]
-            arr = self._make_array(aa, case, mask, "native", h, w)
+            arr = self._make_array(aa, case, mask, "native", h, w, store_native=bool(case.get("store_native", False)))
             return self._zoom_obs(case, mask, arr)
         if kind == "large":
             return self._run_large(aa, case)
         if kind == "history":
             return self._run_history(aa, case)
+        if kind == "own":
+            return self._run_own(aa, case)
         raise ValueError(kind)
+
+    # ------------------------------------------------------------------ round 5 (R5-B): ownership histories
+    @staticmethod
+    def _scribble(objs, how, salt):
+        """overwrite, in place, every buffer in `objs` (numpy arrays, the arrays inside autoarray structures and
+        their masks, python lists): the caller owns what it passed in and what it was handed back"""
+        seen = set()
+
+        def bufs(o, depth=0):
+            if o is None or id(o) in seen:
+                return
+            seen.add(id(o))
+            if isinstance(o, np.ndarray):
+                yield o
+            elif isinstance(o, list):
+                yield o
+            elif depth < 2:
+                try:
+                    a = getattr(o, "_array", None)
+                    m = getattr(o, "mask", None)
+                except Exception:
+                    return
+                if isinstance(a, np.ndarray):
+                    yield from bufs(a, depth + 1)
+                if m is not None and m is not o:
+                    yield from bufs(m, depth + 1)
+
+        def scribble_list(lst):
+            for i, v in enumerate(lst):
+                if isinstance(v, list):
+                    scribble_list(v)
+                elif isinstance(v, (bool, np.bool_)):
+                    lst[i] = not v
+                else:
+                    try:
+                        lst[i] = v + 7 + salt
+                    except Exception:
+                        pass
+
+        n = 0
+        for o in objs:
+            for b in bufs(o):
+                if isinstance(b, list):
+                    scribble_list(b)
+                    n += 1
+                    continue
+                if not b.flags.writeable or b.size == 0:
+                    continue
+                try:
+                    if b.dtype == bool:
+                        b[...] = ~b
+                    elif np.issubdtype(b.dtype, np.floating):
+                        if how == "nan":
+                            b[...] = np.nan
+                        elif how == "add":
+                            b += 1.0 + salt
+                        else:
+                            b *= -3.0
+                            b -= 0.5
+                    elif np.issubdtype(b.dtype, np.integer):
+                        b += 7 + salt
+                    n += 1
+                except (ValueError, TypeError):
+                    pass
+        return n
+
+    def _run_own(self, aa, case):
+        """observe -> scribble over every array the API accepted or returned -> rebuild the same world from fresh
+        equal inputs -> observe again (`rounds` times).  Every round is the ordinary case `sub`."""
+        rounds = []
+        scribbled = 0
+        for r in range(int(case.get("rounds", 3))):
+            self._own = []
+            try:
+                rounds.append(self.run_impl(case["sub"]))
+            finally:
+                log, self._own = self._own, None
+            scribbled += self._scribble(log, case.get("scribble", "nan"), r)
+        return {"rounds": rounds, "scribbled": scribbled > 0}
 
     # -- single steps shared by the ordinary kinds and the histories --------------------------------
     def _mask_step(self, aa, case, mask, s):
@@ -1375,7 +1948,8 @@ class C14(PropertyCheck):
             mask = mask.resized_from(new_shape=self._shp(case, s["shape"]),
                                      pad_value=self._padv(case, s["mask_pad"]))
         o = self._mask_obs(mask)
-        g = np.asarray(aa.Grid2D.from_mask(mask=mask).array).reshape(-1, 2)
+        gobj = self._reg(aa.Grid2D.from_mask(mask=mask))
+        g = np.asarray(gobj.array).reshape(-1, 2)
         o["grid"] = [qlist(p) for p in g]
         return mask, o
 
@@ -1390,15 +1964,18 @@ class C14(PropertyCheck):
         return arr.trimmed_after_convolution_from(kernel_shape=self._shp(case, s["kernel"]))
 
     def _zoom_obs(self, case, mask, arr):
-        region = [int(v) for v in mask.zoom_region]
+        robj = self._reg(mask.zoom_region)
+        region = [int(v) for v in robj]
         if case["buffer"] == 1 and self._var(case).get("omit_defaults"):
             z = arr.zoomed_around_mask()
         elif self._var(case).get("shp") == "npint":
             z = arr.zoomed_around_mask(buffer=np.int64(case["buffer"]))
         else:
             z = arr.zoomed_around_mask(buffer=case["buffer"])
+        zn = z.native
+        self._reg(z, z.mask, zn, arr, mask)
         return {"region": region, "shape": [int(v) for v in z.shape_native],
-                "native": qlist(np.asarray(z.native.array).ravel()),
+                "native": qlist(np.asarray(zn.array).ravel()),
                 "scales": qlist(z.mask.pixel_scales)}
 
     # ------------------------------------------------------------------ large cases (implementation + verdict)
@@ -1651,6 +2228,22 @@ class C14(PropertyCheck):
             raise ValueError(k)
 
         obs = []
+        try:
+            self._run_history_ops(aa, case, worlds, observe, need_arr, need_ds, obs)
+        finally:   # configuration histories: always back to the pinned value
+            if self._cfg_native or any(o["op"] == "config" for o in case["ops"]):
+                self._set_cfg(False)
+        return {"steps": obs}
+
+    def _set_cfg(self, value):
+        from autoconf import conf
+        conf.instance["general"]["structures"]["native_binned_only"] = bool(value)
+        self._cfg_native = bool(value)
+
+    def _run_history_ops(self, aa, case, worlds, observe, need_arr, need_ds, obs):
+        import copy as _copy
+        from autoarray.structures.arrays import array_2d_util
+
         for op, wi, st, sub in _hist_walk(case):
             W = worlds[wi]
             k = op["op"]
@@ -1661,7 +2254,14 @@ class C14(PropertyCheck):
                 except Exception as e:  # recorded as this step's observation
                     obs.append({"err": type(e).__name__, "msg": str(e)[:200]})
                 continue
-            if k == "edit_mask":
+            if k == "config":
+                self._set_cfg(op["value"])
+            elif k == "rebuild":   # the caller drops its objects and builds equal ones from scratch
+                mk = W["mask"]
+                W["mask"] = aa.Mask2D(mask=np.array(mk).copy(), pixel_scales=mk.pixel_scales, origin=mk.origin)
+                W["arr"] = None
+                W["ds0"] = None
+            elif k == "edit_mask":
                 v = bool(op["value"])
                 via = op.get("via", "item")
                 if "rect" in op:
@@ -1681,7 +2281,7 @@ class C14(PropertyCheck):
             elif k == "edit_values":
                 arr = need_arr(W, st)
                 for (y, x), v in zip(op["cells"], op["values"]):
-                    if st["store_native"]:
+                    if st["arr_native"]:
                         arr[y, x] = float(Fraction(v))
                     else:
                         arr[sum(1 for b in st["bits"][:y * w + x] if not b)] = float(Fraction(v))
@@ -1748,7 +2348,6 @@ class C14(PropertyCheck):
                     pass
             else:
                 raise ValueError(k)
-        return {"steps": obs}
 
     # ------------------------------------------------------------------ model
     def _hist_subs(self, case):
@@ -1758,6 +2357,9 @@ class C14(PropertyCheck):
         kind = case["kind"]
         if kind == "large":
             return []   # judged by the vectorised oracle alone
+        if kind == "own":
+            first = impl_obs["rounds"][0] if isinstance(impl_obs, dict) and impl_obs.get("rounds") else impl_obs
+            return self.model_requests(case["sub"], first)
         if kind == "history":
             steps = impl_obs.get("steps", []) if isinstance(impl_obs, dict) else []
             subs = self._hist_subs(case)
@@ -1807,18 +2409,26 @@ class C14(PropertyCheck):
                 hp, wp = ih + case["kernel"][0] - 1, iw + case["kernel"][1] - 1
             return [{"op": "c14.trimmed_array_from", "padded": case["padded"], "padded_shape": [hp, wp],
                      "image_shape": [ih, iw]}]
+        opts = case.get("opts") or {}
+        # round 5 (R5-F): without a psf nothing is ever padded — the model's 1x1 kernel never leaves the frame
+        kernel = [1, 1] if opts.get("psf") == "none" else case.get("kernel")
         if kind == "apply_mask":
-            return [{"op": "c14.apply_mask", "mask": case["mask"], **geom, "data": case["data"],
-                     "noise": case["noise"], "kernel": case["kernel"]}]
+            reqs = [{"op": "c14.apply_mask", "mask": case["mask"], **geom, "data": case["data"],
+                     "noise": case["noise"], "kernel": kernel}]
+            if "ds_trim" in opts:   # the trimmed dataset = the masked, never padded one
+                reqs.append({**reqs[0], "kernel": [1, 1]})
+            return reqs
         if kind == "apply_mask_chain":
             return [{"op": "c14.apply_mask_chain", "h": case["h"], "w": case["w"], "masks": case["masks"],
-                     **geom, "data": case["data"], "noise": case["noise"], "kernel": case["kernel"]}]
+                     **geom, "data": case["data"], "noise": case["noise"], "kernel": kernel}]
         if kind == "zoom":
             return [{"op": "c14.zoom", "mask": case["mask"], **geom, "native": case["native"],
                      "buffer": case["buffer"]}]
         raise ValueError(kind)
 
     def model_obs(self, case, responses):
+        if case["kind"] == "own":
+            return self.model_obs(case["sub"], responses)
         if case["kind"] == "history":
             out, a = [], 0
             for (op, sub), n in zip(self._hist_subs(case), case.get("_spans", [])):
@@ -1846,14 +2456,32 @@ class C14(PropertyCheck):
                     "ds_mask": {k: o["data"][k] for k in ("mask", "scales", "origin")}}
 
         if kind == "apply_mask":
-            return ds_model(responses[0]["ok"])
+            o = ds_model(responses[0]["ok"])
+            if "ds_trim" in (case.get("opts") or {}):
+                o["ds_trim"] = ds_model(responses[1]["ok"]) if o["padded"] else None
+            return self._cfg_patch(case, o)
         if kind == "apply_mask_chain":
             return [ds_model(o) for o in responses[0]["ok"]]
         return responses[0]["ok"]
 
+    @staticmethod
+    def _cfg_patch(case, o):
+        """round 5 (R5-D): under general.structures.native_binned_only every Array2D is natively stored"""
+        if case.get("cfg_native"):
+            for key in ("data", "noise"):
+                o[key] = {**o[key], "store_native": True}
+        return o
+
     def compare(self, case, impl_obs, model_obs, cmp):
         if isinstance(impl_obs, dict) and "err" in impl_obs and len(impl_obs) <= 2:
             return cmp.diff({"err": impl_obs["err"]}, model_obs)
+        if case["kind"] == "own":
+            for i, o in enumerate(impl_obs["rounds"]):
+                d = self.compare(case["sub"], o, model_obs, cmp)
+                if d:
+                    return (f"ownership history, round {i + 1} of {len(impl_obs['rounds'])} (every array of the "
+                            f"earlier rounds was overwritten by its owner; the inputs are fresh and equal): {d}")
+            return None
         if case["kind"] == "history":
             subs = self._hist_subs(case)
             if not (len(subs) == len(impl_obs["steps"]) == len(model_obs["steps"])):
@@ -1865,23 +2493,30 @@ class C14(PropertyCheck):
             return None
         if case["kind"] in ("mask_chain", "array_chain"):
             impl_obs = {"steps": impl_obs["steps"]}
-        return self._cmp(impl_obs, model_obs, cmp, "$")
+        return self._cmp(impl_obs, model_obs, cmp, "$", self._mag(case))
 
-    def _cmp(self, a, b, cmp, path):
-        """exact everywhere except under keys named grid* (pixel-centre coordinates: 1e-9 relative)."""
+    @staticmethod
+    def _mag(case):
+        """round 5 (decades): magnitude of the case's coordinates, or None for the ordinary 1e-9-relative rule"""
+        m = case.get("mag")
+        return Fraction(m) if m else None
+
+    def _cmp(self, a, b, cmp, path, mag=None):
+        """exact everywhere except under keys named grid* (pixel-centre coordinates: 1e-9 relative; for a world
+        scaled by 2^k: 1e-9 x the world's magnitude, absolute)."""
         if isinstance(a, dict) and isinstance(b, dict):
             if set(a) != set(b):
                 return f"{path}: keys impl={sorted(a)} model={sorted(b)}"
             for k in sorted(a):
                 if k.startswith("grid"):
-                    old = cmp.rtol
-                    cmp.rtol = TOL
+                    old = (cmp.rtol, cmp.atol)
+                    cmp.rtol, cmp.atol = (TOL, old[1]) if mag is None else (Fraction(0), TOL * mag)
                     try:
                         d = cmp.diff(a[k], b[k], f"{path}.{k}")
                     finally:
-                        cmp.rtol = old
+                        cmp.rtol, cmp.atol = old
                 else:
-                    d = self._cmp(a[k], b[k], cmp, f"{path}.{k}")
+                    d = self._cmp(a[k], b[k], cmp, f"{path}.{k}", mag)
                 if d:
                     return d
             return None
@@ -1889,7 +2524,7 @@ class C14(PropertyCheck):
             if len(a) != len(b):
                 return f"{path}: length impl={len(a)} model={len(b)}"
             for i, (x, y) in enumerate(zip(a, b)):
-                d = self._cmp(x, y, cmp, f"{path}[{i}]")
+                d = self._cmp(x, y, cmp, f"{path}[{i}]", mag)
                 if d:
                     return d
             return None
@@ -1905,6 +2540,15 @@ class C14(PropertyCheck):
         # the vectorised statement of the property (`_lj_*`) was evaluated on the raw outputs in `_run_large`
         v = obs["verdict"]
         return bool(v["holds"]), f"[large {case['op']}, sizes around {case.get('hint')}] {v['detail']}"
+
+    def _oracle_own(self, case, obs):
+        """every round of an ownership history is judged as the ordinary case it repeats"""
+        for i, o in enumerate(obs["rounds"]):
+            ok, d = self.oracle(case["sub"], o)
+            if not ok:
+                return False, (f"round {i + 1} of {len(obs['rounds'])} of the same call on fresh, equal inputs (the "
+                               f"caller overwrote the arrays of the earlier rounds in place): {d}")
+        return True, ""
 
     def _oracle_history(self, case, obs):
         """every observing step is judged as the ordinary case a FRESH object in the current state would be"""
@@ -1961,6 +2605,7 @@ class C14(PropertyCheck):
     # -- one resize/pad/trim step, for masks (values=None) and arrays --------------------------------
     def _check_step(self, case, step, prev, cur, with_values):
         geom = ([Fraction(v) for v in case["scales"]], [Fraction(v) for v in case["origin"]])
+        mag = self._mag(case)
         h, w = prev["mask"]["h"], prev["mask"]["w"]
         h2, w2 = cur["mask"]["h"], cur["mask"]["w"]
         k = step["k"]
@@ -2012,10 +2657,10 @@ class C14(PropertyCheck):
             y, x = r + ty, c + tx
             if not (0 <= y < h and 0 <= x < w):
                 continue
-            if (h - h2) % 2 == 0 and not _close(p[0], _coord_y(h, oy, sy, y)):
+            if (h - h2) % 2 == 0 and not _close(p[0], _coord_y(h, oy, sy, y), mag):
                 return (f"{k} {h}x{w}->{h2}x{w2}: pixel {(y, x)}->{(r, c)} moved in y: "
                         f"{float(Fraction(p[0]))} != {float(_coord_y(h, oy, sy, y))}")
-            if (w - w2) % 2 == 0 and not _close(p[1], _coord_x(w, ox, sx, x)):
+            if (w - w2) % 2 == 0 and not _close(p[1], _coord_x(w, ox, sx, x), mag):
                 return (f"{k} {h}x{w}->{h2}x{w2}: pixel {(y, x)}->{(r, c)} moved in x: "
                         f"{float(Fraction(p[1]))} != {float(_coord_x(w, ox, sx, x))}")
         return None
@@ -2039,7 +2684,8 @@ class C14(PropertyCheck):
                     return False, f"{what} is not the identity: {key} differs"
             if "grid" in a and "grid" in b:
                 if len(a["grid"]) != len(b["grid"]) or not all(
-                        _close(p[0], r[0]) and _close(p[1], r[1]) for p, r in zip(a["grid"], b["grid"])):
+                        _close(p[0], r[0], self._mag(case)) and _close(p[1], r[1], self._mag(case))
+                        for p, r in zip(a["grid"], b["grid"])):
                     return False, "round trip moved the pixel coordinates"
         return True, ""
 
@@ -2088,7 +2734,8 @@ class C14(PropertyCheck):
             if len(g) != len(unm):
                 return False, f"{gkey} has {len(g)} points for {len(unm)} unmasked pixels"
             for (y, x), p in zip(unm, g):
-                if not (_close(p[0], _coord_y(h, oy, sy, y)) and _close(p[1], _coord_x(w, ox, sx, x))):
+                if not (_close(p[0], _coord_y(h, oy, sy, y), self._mag(case))
+                        and _close(p[1], _coord_x(w, ox, sx, x), self._mag(case))):
                     return False, (f"{gkey}: coordinate of pixel {(y, x)} moved "
                                    f"({[float(Fraction(v)) for v in p]} != "
                                    f"{[float(_coord_y(h, oy, sy, y)), float(_coord_x(w, ox, sx, x))]})"
@@ -2106,6 +2753,16 @@ class C14(PropertyCheck):
             got = [nat[r][c] for r in range(mh) for c in range(mw) if not cm[r][c]]
             if got != [src[y][x] for y, x in unm]:
                 return False, "native array does not hold the values at the unmasked pixels in order"
+        if obs.get("ds_trim") is not None:
+            # round 5: Imaging.trimmed_after_convolution_from after the automatic padding is the identity
+            t = obs["ds_trim"]
+            if t["padded"] or [t["data"]["mask"]["h"], t["data"]["mask"]["w"]] != [h, w]:
+                return False, "padding for the kernel then trimming the dataset for the same kernel changed its shape"
+            if t["data"]["mask"] != mj or t["noise"]["mask"] != mj:
+                return False, "padding then trimming the dataset does not restore the mask"
+            ok, d = self._oracle_apply_mask({**case, "opts": {}}, {k: v for k, v in t.items() if k != "ds_trim"})
+            if not ok:
+                return False, "after padding then trimming the dataset (same kernel): " + d
         return True, ""
 
     def _oracle_apply_mask_chain(self, case, obs):
@@ -2146,7 +2803,7 @@ class C14(PropertyCheck):
     # ------------------------------------------------------------------ misc
     def nontrivial(self, case, obs):
         kind = case["kind"]
-        if kind == "large":
+        if kind in ("large", "own"):
             return True
         if kind == "history":
             return len(case["worlds"]) > 1 or any(o["op"] not in HIST_OBSERVING for o in case["ops"])
@@ -2220,6 +2877,12 @@ class C14(PropertyCheck):
         if kind == "history":
             yield from self._shrink_history(case)
             return
+        if kind == "own":
+            # (the number of rounds is never shrunk: a process-wide memo warmed by earlier candidates would make a
+            #  shorter history fail here and pass in the cold process of a replay)
+            for sub in self.shrink(case["sub"]):
+                yield {**case, "sub": sub}
+            return
         if kind in ("zoom", "apply_mask"):
             mj = case["mask"]
             bits = mj["bits"]
@@ -2248,6 +2911,8 @@ class C14(PropertyCheck):
             yield {**case, "steps": case["steps"][:-1]}
 
     def theorems_for(self, case):
+        if case["kind"] == "own":
+            return self.theorems_for(case["sub"])
         if case["kind"] == "history":
             names = []
             for _op, sub in self._hist_subs(case):
